@@ -64,6 +64,7 @@ def check(repo, tier="quick"):
     res.rule("C25.d", "_output_picture numbers files from 0 in call order (counter initialised to 0, used then incremented exactly once, stored nowhere else) and passes its three arguments to file_format.write in write's parameter order; write creates the .raw/.json pair from them")
     res.rule("C25.e", "every exception the creation of a picture file may raise for a user-chosen name is translated, beneath the generic handler, into an error run() handles with its own status (never the internal-error status, never silently dropped)")
     res.rule("C25.g", "history independence of picture output: the command, file_format and the dimension/depth computation keep no state between pictures")
+    res.rule("C25.h", "the command's own arithmetic and naming are total: every division in the command has a divisor that cannot be zero (a non-zero literal, `x or K`, `max(K, x)`) -- the file size of an empty input is 0 and the status line is drawn before the stream is parsed; the .json/.raw names are both formed from os.path.splitext(name)[0], which strips an extension from the last path component only")
     res.rule("C25.f", "main() returns run()'s status, which the entry point passes to sys.exit; output pattern is validated before use")
 
     m, cls = repo.cls(SCRIPT + ":BitstreamValidator")
@@ -222,6 +223,8 @@ def check(repo, tier="quick"):
     rule_d(repo, res, m, cls, meth)
     rule_e(repo, res, m, cls, meth, main_try, hnames, gen_idx)
     rule_f(repo, res, m)
+    rule_h(repo, res, m)
+    res.floor("C25.h", 4)
     from .. import globals_state
 
     globals_state.rule(repo, res, "C25.g", ["scripts.vc2_bitstream_validator", "file_format", "dimensions_and_depths", "py2x_compat", "string_utils"], what="the files written for one picture (a later picture of another format would be written with an earlier one's parameters)")
@@ -235,7 +238,7 @@ def check(repo, tier="quick"):
     res.info["links"] = {"status 3 unreachable from parse_stream's own code": "C02 (validator raises only ConformanceError)", "exception reporting methods total": "C02.6", "callback arguments": "C09.b"}
     res.assumptions = [
         "status 3 is unreachable from the decoder exactly when C02 holds; this check decides the command's own contribution",
-        "the contents of the written files equal the decoder's output because the callback's arguments are passed through unchanged (C25.d) and file_format is exercised by C23 (not applicable to this technique)",
+        "the contents of the written files equal the decoder's output because the callback's arguments are passed through unchanged (C25.d) and file_format is exercised by C23",
         "failures of print()/stderr and of the terminal-size query are outside the claim",
     ]
     res.trusted = ["model of what builtin open() may raise for a str name in a writing mode: OSError family, ValueError (embedded NUL)"]
@@ -535,3 +538,65 @@ def rule_f(repo, res, m):
             if tried and errs:
                 ok = True
     res.check(ok, "C25.f", "parse_args:pattern-validated", "%s:parse_args" % m.rel, "the --output pattern must be trial-formatted with an index and rejected through parser.error when that fails", by="args.output % (0,) under try -> parser.error")
+
+
+def _nonzero_divisor(d):
+    if isinstance(d, ast.Constant) and isinstance(d.value, (int, float)) and d.value != 0:
+        return "non-zero literal"
+    if isinstance(d, ast.BoolOp) and isinstance(d.op, ast.Or) and isinstance(d.values[-1], ast.Constant) and isinstance(d.values[-1].value, (int, float)) and d.values[-1].value != 0:
+        return "`... or %r`" % d.values[-1].value
+    if isinstance(d, ast.Call) and dotted(d.func) == "max" and any(isinstance(a, ast.Constant) and isinstance(a.value, (int, float)) and a.value > 0 for a in d.args):
+        return "max(K, ...)"
+    return None
+
+
+def rule_h(repo, res, m):
+    # fixture: the classifier tells the three safe divisor forms from an unsafe one
+    fx = ast.parse("a / (n or 1)\na // 8\na / max(1, n)\na / n").body
+    if [(_nonzero_divisor(x.value.right) is not None) for x in fx] != [True, True, True, False]:
+        raise AnalysisError("divisor classifier no longer recognises its fixture")
+    res.ok("C25.h", "division:fixture", "vcheck/props/c25.py", by="3 safe forms accepted, bare name rejected")
+    n = 0
+    for fn in [f for f in ast.walk(m.tree) if isinstance(f, ast.FunctionDef)]:
+        k = 0
+        for b in ast.walk(fn):
+            if not (isinstance(b, ast.BinOp) and isinstance(b.op, (ast.Div, ast.FloorDiv, ast.Mod))):
+                continue
+            if isinstance(b.op, ast.Mod) and (isinstance(b.right, ast.Tuple) or isinstance(b.left, (ast.Constant, ast.JoinedStr)) and isinstance(getattr(b.left, "value", ""), str)):
+                continue  # string formatting
+            if isinstance(b.op, ast.Mod) and isinstance(b.left, ast.Attribute) and b.left.attr in ("_output_filename", "output"):
+                continue  # string formatting of the output pattern (decided by C25.f / C25.e)
+            k += 1
+            n += 1
+            why = _nonzero_divisor(b.right)
+            res.check(why is not None, "C25.h", "division:%s#%d" % (fn.name, k), "%s:%s" % (m.rel, fn.name), "`%s`: the divisor can be zero (an empty input file has size 0; the status line is drawn before parsing starts, outside run()'s handlers), so the command would end in a traceback instead of a status" % short(b, 80), by="divisor is %s" % (why or ""))
+    if n == 0:
+        raise AnalysisError("no division found in the validator command (the status line's percentage was the reviewed instance)")
+    fm = repo.mod("file_format")
+    fn = fm.funcs.get("get_metadata_and_picture_filenames")
+    if fn is None:
+        raise AnalysisError("anchor vanished: file_format.get_metadata_and_picture_filenames")
+    arg = fn.args.args[0].arg
+    where = "%s:get_metadata_and_picture_filenames" % fm.rel
+    rets = [r for r in ast.walk(fn) if isinstance(r, ast.Return)]
+    ok = False
+    base_ok = False
+    if len(rets) == 1 and isinstance(rets[0].value, ast.Tuple) and len(rets[0].value.elts) == 2:
+        exts = []
+        bases = set()
+        for e in rets[0].value.elts:
+            if isinstance(e, ast.Call) and isinstance(e.func, ast.Attribute) and e.func.attr == "format" and const_str(e.func.value) in ("{}.json", "{}.raw") and len(e.args) == 1:
+                exts.append(const_str(e.func.value))
+                bases.add(norm(e.args[0]))
+            elif isinstance(e, ast.BinOp) and isinstance(e.op, ast.Add) and const_str(e.right) in (".json", ".raw"):
+                exts.append("{}" + const_str(e.right))
+                bases.add(norm(e.left))
+        ok = exts == ["{}.json", "{}.raw"] and len(bases) == 1
+        if ok:
+            b = ast.parse(bases.pop()).body[0].value
+            if isinstance(b, ast.Name):
+                ds = [a.value for a in ast.walk(fn) if isinstance(a, ast.Assign) and any(isinstance(t, ast.Name) and t.id == b.id for t in a.targets)]
+                b = ds[0] if len(ds) == 1 else b
+            base_ok = norm(b) in ("os.path.splitext(%s)[0]" % arg, "splitext(%s)[0]" % arg, "str(Path(%s).with_suffix(''))" % arg, "str(pathlib.Path(%s).with_suffix(''))" % arg)
+    res.check(ok, "C25.h", "names:json-then-raw-of-one-base", where, "the function must return (base + '.json', base + '.raw') for one base name", by="('{}.json', '{}.raw') of the same base")
+    res.check(base_ok, "C25.h", "names:extension-stripped-from-last-component-only", where, "the base name must be os.path.splitext(name)[0]: string splitting on '.' also cuts at a dot in a directory name ('out.v1/picture_%d'), which sends every picture to one file outside the requested directory", by="os.path.splitext(name)[0]")
